@@ -189,9 +189,17 @@ def h_incoming_unknown(ctx, flags, enc):
     if tag in ("message", "chatstate", "ib", "success", "failure", "call"):
         # documented bodies are the catalogue's subject; here: bodyless unknown variants are simply not deliverable twice
         pass
+    kids = []
+    if tag == "message":
+        attrs["type"] = "text"          # (a contentless type="media" message makes the media layer raise on the pinned tree: observation, see DESIGN section 6)
+        kids = [N("unavailable")] if ctx.flag("placeholder_child") else []
     try:
-        bottom.inject(N(tag, attrs))
+        bottom.inject(N(tag, attrs, kids))
     except (AttributeError, TypeError, KeyError, ValueError, IndexError, AssertionError) as e:
+        if tag == "message":
+            # a message without content (the server's <unavailable/> placeholder, a childless message) is a documented thing to receive:
+            # it produces nothing rather than an error
+            return [("a message stanza without content produces nothing rather than an error (%s: %s)" % (type(e).__name__, str(e)[:60]), False)]
         # a malformed body of a recognised tag may be rejected; it must not be delivered AND rejected
         return [("rejected-stanza-not-also-delivered", len(app.up) == 0)]
     return [("at-most-one-entity (got %d)" % len(app.up), len(app.up) <= 1)]
